@@ -41,27 +41,34 @@ let () =
             let i0 = nz () in let i1 = nz () in let ea = nz () in
             let ctx = (match parse_ctx () with None -> None | Some (_, l) -> Some l) in
             let _instr = next () in
+            let _stack = next () in
             let dec =
               (match next () with
                | "-" -> `None
                | "U" -> `Unknown
                | "D" ->
                  let lea = (next () = "1") in
+                 let ms = (next () = "1") in
+                 let imp = nz () in let ipk = nz () in let ipv = nz () in
                  let n = int_of_string (next ()) in
-                 `Dec (lea, List.init n (fun _ ->
+                 `Dec (((((lea, ms), imp), ipk), ipv), List.init n (fun _ ->
                          let b = nz () in let i = nz () in let sc = nz () in let d = nz () in (((b, i), sc), d)))
                | _ -> failwith "dec") in
             let (kind, regs) = parse_regions () in
             (match dec with
              | `Unknown -> "?"
              | _ ->
-               let d = (match dec with `Dec (lea, ops) -> Some (lea, ops) | _ -> None) in
-               let (adj, flips) = run_q arch os code flags np i0 i1 ea ctx d kind regs in
+               let d = (match dec with `Dec (h, ops) -> Some (h, ops) | _ -> None) in
+               let ((adj, flips), (acc, ip)) = run_q arch os code flags np i0 i1 ea ctx d kind regs in
                let adjs = (match adj with
                    | [_] -> "none"
                    | [k; v] -> (if int_of_z k = 1 then "nc:" else "null:") ^ string_of_z v
                    | _ -> failwith "adj") in
-               adjs ^ "#" ^ fmt_flips flips)
+               let accs = (match acc with
+                   | [[x]] -> string_of_z x
+                   | l -> String.concat "," (List.map (fun e -> String.concat ":" (List.map string_of_z e)) l)) in
+               let ips = String.concat ":" (List.map string_of_z ip) in
+               adjs ^ "#" ^ fmt_flips flips ^ "#" ^ accs ^ "#" ^ ips)
           | _ -> failwith "kind" in
         print_endline out
       end
